@@ -4,3 +4,6 @@ Open Scope Z_scope.
 Lemma tie_hash k m : gen_hash k m = hash m k.
 Proof. reflexivity. Qed.
 
+(* the branch for a Python int query (modulus taken as a Python int, F37) computes the same hash *)
+Lemma tie_hash_pyint k m : gen_hash_pyint k m = hash m k.
+Proof. reflexivity. Qed.
